@@ -5,14 +5,22 @@ BASE = ('rustc type/borrow checking and MIR construction (incl. drop elaboration
         'semantics of core functions as frozen in mmcheck/models.py; user types contain no unsafe code that '
         'reaches into the container')
 
+ALLP = ['C01', 'C02', 'C03', 'C04', 'C05', 'C06', 'C07', 'C11', 'C12', 'C17', 'C18']
+
 ENGINES = [
-    {'name': 'mmdrv', 'path': 'driver/', 'serves_properties': ['C02', 'C03', 'C04', 'C05', 'C06', 'C17'],
+    {'name': 'mmdrv', 'path': 'driver/', 'serves_properties': ALLP,
      'kind_free_text': 'rustc_private driver (RUSTC_WORKSPACE_WRAPPER): exports structured MIR, resolved callees '
                        'and the effect closure (user code / unwinding / dyn / alloc / extern) of every call and drop site'},
-    {'name': 'mmcheck', 'path': 'mmcheck/', 'serves_properties': ['C02', 'C03', 'C04', 'C05', 'C17'],
+    {'name': 'mmcheck', 'path': 'mmcheck/', 'serves_properties': [p for p in ALLP if p != 'C06'],
      'kind_free_text': 'abstract interpreter over the exported MIR: difference-bound zone over usize terms, slot '
                        'exceptions (holes / extras / ranges) per container, inlining of local callees, models of '
                        'core, unwinding into cleanup blocks, loop-head joins with widening'},
+    {'name': 'specs', 'path': 'mmcheck/specs.py', 'serves_properties': ['C01', 'C07', 'C11', 'C12', 'C18', 'C03', 'C05'],
+     'kind_free_text': 'outcome schemas derived from the property statements, evaluated on every normal-return path '
+                       'the interpreter produces for the anchor roots: path classes (key found at slot h / appended / '
+                       'full-prefix miss) are read off the path itself (answers of the user ==, slot events), then '
+                       'the final container state, the routing of the supplied/stored key and value objects and '
+                       'the returned value are compared with the table'},
     {'name': 'graph', 'path': 'mmcheck/graph.py', 'serves_properties': ['C06', 'C02'],
      'kind_free_text': 'crate graph, reachability over effect closures, type closure, census of unsafe/aliasing primitives'},
 ]
@@ -86,3 +94,64 @@ TEXT = {
                 'user trait methods (K: Clone, S: Serializer, ...) are excluded as in the statement',
     },
 }
+
+SCHEMA = 'E1 mmdrv + E2 mmcheck slot interpreter + outcome schemas (mmcheck/specs.py)'
+PARTIAL = ('Decides the listed per-operation clauses for all K, V, N, fill levels and callback behaviours at once '
+           '(generic MIR, debug and release). NOT decided: the inductive step from per-operation schemas to whole '
+           'histories (DESIGN.md §5, paper argument), and anything that depends on the lawfulness of the user Eq/Borrow.')
+TEXT.update({
+    'C12': {
+        'engine': SCHEMA,
+        'technique': 'abstract interpretation of MIR with value provenance tags: routing table of supplied/stored key and value objects',
+        'level': 'Proof (the property is a data-flow property): on every normal-return path of every insertion root '
+                 '(insert, checked_insert in both branches, insert_key_value, insert_unchecked, Set::insert, '
+                 'Set::replace, VacantEntry::insert, Entry::or_insert*, OccupiedEntry::insert) the slot whose key '
+                 'compared equal ends up holding exactly (originally stored key | supplied key, supplied value) as '
+                 'the statement demands, no other slot changes, and the displaced objects are what is returned; '
+                 'get_key_value, Set::get, take, remove_entry and OccupiedEntry::key expose the key of the matching slot itself.',
+        'note': BASE + '; mem::replace model; the dropped/returned fate of moved-out values is the compiler\'s drop elaboration',
+    },
+    'C01': {
+        'engine': SCHEMA,
+        'technique': 'abstract interpretation of MIR: per-operation outcome schemas (found / appended / full-prefix miss) against the dictionary table',
+        'level': 'Partial (level other). For insert, insert_key_value, checked_insert, get, get_mut, get_key_value, '
+                 'contains_key, Index/IndexMut, remove, remove_entry: every normal-return path is classified by what '
+                 'happened on it (user == answered true for slot h and the supplied key / a slot was appended after '
+                 'every live key answered false / full-prefix miss) and the final len, the touched slots, their '
+                 'contents and the returned value must equal the row of the ideal-dictionary table; "not found" is '
+                 'only accepted after a completed scan of [0,len); Index returns normally only on the found class. '
+                 + PARTIAL,
+        'note': BASE,
+    },
+    'C07': {
+        'engine': SCHEMA,
+        'technique': 'abstract interpretation of MIR through the inlined Map methods: result truth tables and state schemas of the Set operations',
+        'level': 'Partial (level other). Set::insert/replace/contains/get/remove/take are interpreted through the '
+                 'inlined Map code; on each path class (present / absent) the boolean or Option result and the '
+                 'resulting container state must equal the ideal-set table (insert true iff appended, remove/contains '
+                 'true iff a key matched, take/get/replace return the stored element). ' + PARTIAL,
+        'note': BASE,
+    },
+    'C11': {
+        'engine': SCHEMA,
+        'technique': 'abstract interpretation of MIR: entry classification, arm/closure call discipline, slot schemas of the Entry API',
+        'level': 'Partial (level other). entry(k) yields Occupied(index of the slot whose key matched) or, only '
+                 'after a completed full-prefix miss, Vacant(k); or_insert/or_insert_with/or_insert_with_key/'
+                 'or_default run their closure exactly once on the vacant arm and never on the occupied arm and '
+                 'return a reference to the value of the entry\'s slot; and_modify runs its closure exactly once on '
+                 'the occupied value and never when vacant; OccupiedEntry key/get/get_mut/into_mut/insert/remove/'
+                 'remove_entry and VacantEntry insert/into_key have the slot-level schemas of the direct map '
+                 'operations and touch no other slot. ' + PARTIAL,
+        'note': BASE,
+    },
+    'C18': {
+        'engine': SCHEMA,
+        'technique': 'abstract interpretation of MIR under the documented contract: sibling agreement of insert_unchecked with insert',
+        'level': 'Partial (level other). insert_unchecked is interpreted under its documented precondition (two '
+                 'passes: map not full / full and nothing appended) and must satisfy the very same outcome and '
+                 'routing table as insert on every path; all other unsafe obligations of the body are discharged '
+                 '(C02/C17 rules). get_disjoint_unchecked_mut is the body the safe method runs after its precheck. '
+                 + PARTIAL,
+        'note': BASE + '; the contract is the only assumption and is injected at exactly one point',
+    },
+})
